@@ -8,6 +8,8 @@ import Rscp.Spec.Frame
 import Driver.Hist
 import Driver.Build
 import Driver.Vocab
+import Driver.Timing
+import Driver.Log
 import Rscp.Model.Receive
 import Rscp.Model.Config
 import Rscp.Props.C05Defs
@@ -26,6 +28,7 @@ def parseHexList : List String → Option (List (List Byte))
 
 def step (line : String) : String :=
   if line.startsWith "hist " then Driver.runHist line else
+  if line.startsWith "dl " then Driver.runDl line else
   if line.startsWith "builds " then Driver.runBuilds line else
   if line.startsWith "build" then Driver.runBuild line else
   match line.splitOn " " with
@@ -84,6 +87,9 @@ def step (line : String) : String :=
   | ["tagstr", h] => Driver.tagStrLine h
   | ["dt", n] => match n.toNat? with | some d => Driver.dtLine d | none => "bad-op"
   | ["codes"] => Driver.codesLine
+  | "render" :: toks => Driver.renderLine toks
+  | ["logwin", l] => Driver.logwinLine l
+  | ["bound", ct, st, rt] => Driver.runBound ct st rt
   | ["crc", h] =>
     match bytesOfHex h with
     | some bs => toString (Crc.crc32 bs)
